@@ -2,8 +2,8 @@
    (generate_fdiff_weights_vector: Fornberg's recurrence).
    Transcription conventions: DESIGN.md appendix B.1.  The model is of the code that
    exists:
-   - `unsigned` index arithmetic wraps modulo 2^32 (len_w = len_g * (max_deriv + 1), the
-     index expressions i + k * len_g ...), `const int mn` is the signed reading of an unsigned;
+   - `unsigned` index arithmetic wraps modulo 2^32 (the index expressions i + k * len_g ...),
+     len_w is computed in 64 bits and checked, `const int mn` is the signed reading of an unsigned;
    - `grid` and `weights` are arrays with checked access (the library is built with
      -D_GLIBCXX_ASSERTIONS: an index outside the vector aborts), so an access outside
      them is the observable value [ErrOOB idx len];
@@ -175,8 +175,14 @@ Fixpoint iloop (cnt : nat) (grid : list Qc) (around : Qc) (i len_g max_deriv : N
    the first [stages] rounds of its outer loop *)
 Definition fdiff_stages (stages : nat) (grid : list Qc) (max_deriv : N) (around : Qc)
   : res (Qc * Qc * list val) :=
+  (* if (grid.empty()) throw SymEngineException(...)                      [commit a89e3b6] *)
+  if N.of_nat (length grid) =? 0 then ErrExn EXN_SYMENGINE else
   let len_g := u32 (N.of_nat (length grid)) in
-  let len_w := umul len_g (uadd max_deriv 1) in
+  (* unsigned long long len_w64 = (u64)len_g * ((u64)max_deriv + 1);
+     if (len_w64 > 0xffffffff) throw SymEngineException(...)              [commit e537b42] *)
+  let len_w64 := (len_g * (max_deriv + 1)) mod W64 in
+  if 4294967295 <? len_w64 then ErrExn EXN_SYMENGINE else
+  let len_w := u32 len_w64 in
   do g0 <- get grid 0;
   let c4 := Qcminus g0 around in
   (* vec_basic weights(len_w); weights[0] = one; weights[1..] = zero *)
@@ -189,8 +195,9 @@ Definition fdiff (grid : list Qc) (max_deriv : N) (around : Qc) : res (list val)
   do '(_, _, w') <- fdiff_stages (N.to_nat len_g - 1) grid max_deriv around;
   Ok w'.
 
-(* ---------- guards (the defect classes; see FdiffSpec/FdiffProofs) ---------- *)
-(* the index space fits: non-empty grid and len_g * (max_deriv + 1) does not wrap *)
+(* ---------- guards ---------- *)
+(* the index space fits: non-empty grid and len_g * (max_deriv + 1) < 2^32; outside it the
+   function throws (it used to leave its vectors: known_findings.txt, `fixed:` entries) *)
 Definition guard_size (n : nat) (max_deriv : N) : bool :=
   (0 <? N.of_nat n) && (max_deriv <? W32) && (N.of_nat n * (max_deriv + 1) <? W32).
 
